@@ -55,7 +55,7 @@ CHECKS = {
              "classes; R6 counts are never tested by truthiness; R7 error details and skip amounts as linear forms; R8 outcome "
              "tables of bytes_parsed / assert_done over their path summaries (closed -> obsolete error; armed and counted + size > "
              "limit -> anticipated error / retire, skip the rest, exceeded error; close quiet iff counted == limit); R9 no "
-             "generator of the decode core is created and discarded. Concrete sizes are not computed. R2 judges the effective anticipate_only of the charge site including the callee's default. R10 (= C01-F + C09-S3) the layout chosen for the parameter area follows the right session bit: the encryption flag of the first parameter in its normal form. Region methods that hand the skip to the driver as a request object are a protocol change that is not followed (analysis error, no verdict). R11 (= C07-NI-1) every handler of a size error re-raises it in strict mode.",
+             "generator of the decode core is created and discarded. Concrete sizes are not computed. R2 judges the effective anticipate_only of the charge site including the callee's default. R10 (= C01-F + C09-S3) the layout chosen for the parameter area follows the right session bit: the encryption flag of the first parameter in its normal form. Region methods that hand the skip to the driver as a request object are a protocol change that is not followed (analysis error, no verdict). R11 (= C07-NI-1) every handler of a size error re-raises it in strict mode. R12 (= C01-W0) the decode facets of all types (field lists, declared types, widths, element counts of union arms - what a field charges to its regions) equal the pinned snapshot.",
         note="trusted: CPython ast; L (E1). Comparisons on runtime integers are deliberately not pattern-matched.",
         technique="partial evaluation (loop specialisation) + typestate over abstract traces, CFG dominance, who-may-call rules",
         design="4/C03",
@@ -115,7 +115,7 @@ CHECKS = {
              "it unchanged (36 sites); NI-3 on every CFG path from a mode test's false edge the first thing yielded is "
              "WarningEvent(error=e) with the same e (only the offending primitive's own event may precede it), and no "
              "WarningEvent is constructed anywhere else. Hence both modes execute the same statements on the same data up "
-             "to the first error object - the property's core, for all inputs. NI-4 (= C02-B3) for an out-of-range value the offending event is emitted first, then the warning: on every completed path of the primitive walker. NI-1 accepts a mode test nested under an existence test of the error; the warning-site count is an upper bound.",
+             "to the first error object - the property's core, for all inputs. NI-4 (= C02-B3) for an out-of-range value the offending event is emitted first, then the warning: on every completed path of the primitive walker. NI-1 accepts a mode test nested under an existence test of the error; the warning-site count is an upper bound. NI-5 (= C08-Y2) an owner of a region recovers exactly from overruns of its own regions and re-raises the others.",
         note="trusted: CPython ast; error objects are truthy; method calls resolved by receiver constructor (over-approximated "
              "when unknown). Which events are emitted is not decided, only that the two runs coincide.",
         technique="information-flow / non-interference lint + CFG path search from each mode test",
@@ -145,7 +145,7 @@ CHECKS = {
              "being TPMA_SESSION masks in L; S4 command then response at the stream's root path, mode threaded, no own "
              "termination; S5 separate_events cuts exactly at root-path MarshalEvents and events_to_objs alternates and carries "
              "the command code into exactly the next message (decision lists on the path summaries of one loop iteration); S6 = "
-             "C05-E3: a stream ends silently only at a message boundary. Equality of concatenated event lists is not decided. S6 also requires that the silent end-of-stream return exists. S5 also recognises the index-slicing form of separate_events (starts at root events, last slice to the end). S2/S3 judge the encryption request in a normal form (tpmsa.encreq): whatever functions, methods or keyword bundles compute it are evaluated symbolically to (value without session area, value when a session sets the bit, value when none does) for one area and one bit; required (None, True, None) on the command's own area with `encrypt`. S7 (= C07-NI-2) the mode flag is handed down on every call from the pump to the message walkers.",
+             "C05-E3: a stream ends silently only at a message boundary. Equality of concatenated event lists is not decided. S6 also requires that the silent end-of-stream return exists. S5 also recognises the index-slicing form of separate_events (starts at root events, last slice to the end). S2/S3 judge the encryption request in a normal form (tpmsa.encreq): whatever functions, methods or keyword bundles compute it are evaluated symbolically to (value without session area, value when a session sets the bit, value when none does) for one area and one bit; required (None, True, None) on the command's own area with `encrypt`. S7 (= C07-NI-2) the mode flag is handed down on every call from the pump to the message walkers. S8 (= C15-F5) front-ends that cut a capture into messages take the boundaries from the header's size field and drop nothing but runts below the header size.",
         note="trusted: CPython ast; C01-W5 (child paths extend the parent) for the unambiguity of the cut.",
         technique="def-use on abstract traces (partial evaluation) + shape rules on the pairing helpers",
         design="4/C09",
@@ -172,7 +172,7 @@ CHECKS = {
              "tables and keys, recognise encrypted areas by TPM2B_ENCRYPTED_PARAM's field names, remember a Response's command "
              "code; A5 sibling rule: every node the decoder announces with an event but returns as None is mapped to None by "
              "the events->object builder too; A7 (= C01-W7) a union arm without payload decodes to None. A1-A5 are decided on path summaries (hidden / marker / list parent / value per field "
-             "as a decision list), not on the text of the branches. These are necessary conditions; the round trips themselves are not decided. A8: no unbound local / undefined name in common/object.py. A9 (= C19-L9 = C15-F2) every front-end returns the decoder's result; A2 folds the union test of obj_to_events over every layout class; A4 finds the member-type resolver by role (closure or function handed the caller's variables). A1's set of invisible members may be any literal collection. A10 (= C09-S5) the objects of a stream are rebuilt message by message with the pairing of C09.",
+             "as a decision list), not on the text of the branches. These are necessary conditions; the round trips themselves are not decided. A8: no unbound local / undefined name in common/object.py. A9 (= C19-L9 = C15-F2) every front-end returns the decoder's result; A2 folds the union test of obj_to_events over every layout class; A4 finds the member-type resolver by role (closure or function handed the caller's variables). A1's set of invisible members may be any literal collection. A10 (= C09-S5) the objects of a stream are rebuilt message by message with the pairing of C09. A11 (= C01-F) per tag / response code the message walkers decode exactly the fields the layout has for that case (absent areas emit nothing).",
         note="trusted: CPython ast; L (E1); dataclass equality semantics.",
         technique="agreement (sibling) rules between decoder traces, the static layout model and the two converters",
         design="4/C11",
@@ -184,7 +184,7 @@ CHECKS = {
              "receiver is a module-level or class-level object; P2 every memoising decorator in reachable code is unbounded or "
              "has capacity >= the key space from L (234 parameter areas); P3 no mutable defaults, no module-level "
              "generators/iterators; P5 (= C09-S2) nothing the response decode of a stream is given is left over from an earlier pair. "
-             "Together with Python's determinism this is the property's structural core. P4: no caller mutates the result of a memoised function (checked on the unmodified source). P6 a mutable container written in a class body is not mutated through an instance that has no copy of its own; P7 (= C17-M3) a cache keyed by a layout value is typed. P8 (= C09-S3) the stream's encryption predicate answers for the command's own session area with the response direction's bit.",
+             "Together with Python's determinism this is the property's structural core. P4: no caller mutates the result of a memoised function (checked on the unmodified source). P6 a mutable container written in a class body is not mutated through an instance that has no copy of its own; P7 (= C17-M3) a cache keyed by a layout value is typed. P8 (= C09-S3) the stream's encryption predicate answers for the command's own session area with the response direction's bit. P9 (= C15-F1) the arguments reach the decoder on every branch of every front-end.",
         note="trusted: CPython ast; call resolution by name over repo classes (over-approximation); a module-level instance of a "
              "repo class is followed through one local alias and through methods that return self, deeper aliasing is not tracked.",
         technique="call-graph reachability + effect (purity) analysis + memoisation capacity check against the static layout model",
@@ -195,7 +195,7 @@ CHECKS = {
         text="At each site of the pump that attaches remaining bytes to a ConstraintViolatedError, the attached expression "
              "is resolved (def-use, path-sensitive on the depleted flag) in every abstract state reaching it and must be "
              "exactly 'look-ahead byte iff FRESH, then the iterator'; every re-raise attaches to the same error first; "
-             "the overrun error is raised only after consume_bytes(size_max - size_already), in both modes. A3 also: no input is consumed on any path to an anticipated overrun error. A5 (= C07-NI-1) a caught constraint error is re-raised in strict mode, not wrapped.",
+             "the overrun error is raised only after consume_bytes(size_max - size_already), in both modes. A3 also: no input is consumed on any path to an anticipated overrun error. A5 (= C07-NI-1) a caught constraint error is re-raised in strict mode, not wrapped. A6 (= C04-V1) no event of the rejected field precedes the strict value error (the bad field is not also among the emitted fields).",
         note="trusted: CPython ast; itertools.chain/bytes semantics. The byte equation on concrete inputs is not decided.",
         technique="typestate abstract interpretation + path-sensitive reaching definitions at the attach sites",
         design="4/C13",
@@ -211,7 +211,7 @@ CHECKS = {
              "the folder never needs folding; Q4 row shape: indentation len(path)-1, value text form, hex column = binary "
              "re-encoding of that event (the row is compared as a function of the two column conditions on path summaries, colour "
              "codes stripped, nested f-strings and str.join flattened), attribute rows only from the main loop with path+PathNode(attr). The rendered text "
-             "is not decided. Q5 list folding mode by element type, one membership test (same enclosing path and field name), empty-list flag, the folder pulls; Q6 no unbound local / undefined name in the printers. Q7 no discarded generators in the printers; Q8 the byte buffer's translation table (folded) maps every byte to printable ASCII. Q6 also walks TPM_RC.__format__ / attributes() path by path (the symbolic walk of C18): a local read on a path that never assigned it is an UnboundLocalError for the codes of that path. Q9 (= C17-M2 accessor fold): the text form lists a field exactly when its accessor gives a non-zero number; Q4 falls back to the row fold of C17-M2 when attribute rows are not built in place.",
+             "is not decided. Q5 list folding mode by element type, one membership test (same enclosing path and field name), empty-list flag, the folder pulls; Q6 no unbound local / undefined name in the printers. Q7 no discarded generators in the printers; Q8 the byte buffer's translation table (folded) maps every byte to printable ASCII. Q6 also walks TPM_RC.__format__ / attributes() path by path (the symbolic walk of C18): a local read on a path that never assigned it is an UnboundLocalError for the codes of that path. Q9 (= C17-M2 accessor fold): the text form lists a field exactly when its accessor gives a non-zero number; Q4 falls back to the row fold of C17-M2 when attribute rows are not built in place. Q10 (= C17-M2, rows) the rows built in place are folded over every attribute type as well: one row per mask, value bits under the mask's ones, full width.",
         note="trusted: CPython ast; L (E1); C02-B2 for the hex column's content.",
         technique="must-dataflow (guard dominance) + typestate over the printer CFGs + FOLLOW-set facts from the static layout model",
         design="4/C14",
@@ -263,7 +263,7 @@ CHECKS = {
              "the low 12 bits in the property's domain are routed through both trees: the text-form leaf must equal the "
              "reference written from the statement, the bit rows must partition 0xFFFFFFFF and use the same table, index "
              "mask, number mask and shift as the text form. N2: the three name tables equal pinned/rc_tables.json, no "
-             "duplicate keys. The whole domain is finite and enumerated. N1 evaluates helper functions / methods of TPM_RC symbolically (division by a power of two = shift). The walker models module-level Enum members, comparisons through conditional values, rows appended with += / extend, symbolic row masks and arbitrary integer arithmetic on the enumerated low 12 bits (computed per code); a local read on a path that never assigned it is an outcome, not an analysis error. Name tables may be table objects (rows flattened into a tuple, `rows[code & mask]`): N2 requires one row per code number the mask can produce.",
+             "duplicate keys. The whole domain is finite and enumerated. N1 evaluates helper functions / methods of TPM_RC symbolically (division by a power of two = shift). The walker models module-level Enum members, comparisons through conditional values, rows appended with += / extend, symbolic row masks and arbitrary integer arithmetic on the enumerated low 12 bits (computed per code); a local read on a path that never assigned it is an outcome, not an analysis error. Name tables may be table objects (rows flattened into a tuple, `rows[code & mask]`): N2 requires one row per code number the mask can produce. N3 the printer's row shows the details text attributes() attached to it (pretty_attrs folded by the mini interpreter over a word with one classified and one plain row).",
         note="trusted: CPython ast; constant folding of tpm_rc.py; dict/defaultdict lookup semantics. TPM 1.2-style "
              "codes (bits 7 and 8 clear) are outside the property's domain and not judged.",
         technique="symbolic path enumeration of the two classifier methods + exhaustive finite-domain comparison with a reference tree",
@@ -278,7 +278,7 @@ CHECKS = {
              "bytes and warn mode to the selected front-end and prints every item the selected printer yields (hex for bytes) "
              "with no cut in the loop; L4 the type search decodes strictly and catches exactly the documented error classes; "
              "L5 example output is under the command-code filter / exact-type selection and rendered from one event list. The "
-             "statement's observable (stdout / exit status of a process) is not decided. L2 the suggestion lookup cannot fail; L7 an eager Canonical has decoded inside its constructor with the arguments it was given, `type` lists the decoded type name (responses with their command code); L6 no unbound local / undefined name. L8 cc_name folded over all command codes gives the member's name; L7 also checks the plumbing of the type listing. L9 (= C15-F2) every front-end returns the decoder's result; L4 folds the tests on the candidate type over the layout's type listing (stream type and unions skipped, Response with every command code). L11 (= C11-A1) the members a message may lack are exactly those the object-to-events conversion leaves out; L4 follows candidate generators and command-code name tables; L7 accepts any whole-content read of args.file through a reader of tpmstream.io. L12 the file reader of tpmstream.io has no return inside and no break out of its loop over the files. L13 (= C15-F1) the options convert passes reach the decoder on every branch of every front-end.",
+             "statement's observable (stdout / exit status of a process) is not decided. L2 the suggestion lookup cannot fail; L7 an eager Canonical has decoded inside its constructor with the arguments it was given, `type` lists the decoded type name (responses with their command code); L6 no unbound local / undefined name. L8 cc_name folded over all command codes gives the member's name; L7 also checks the plumbing of the type listing. L9 (= C15-F2) every front-end returns the decoder's result; L4 folds the tests on the candidate type over the layout's type listing (stream type and unions skipped, Response with every command code). L11 (= C11-A1) the members a message may lack are exactly those the object-to-events conversion leaves out; L4 follows candidate generators and command-code name tables; L7 accepts any whole-content read of args.file through a reader of tpmstream.io. L12 the file reader of tpmstream.io has no return inside and no break out of its loop over the files. L13 (= C15-F1) the options convert passes reach the decoder on every branch of every front-end. L14 (= C02-B2) the binary encoder skips events without a value before it looks at one (--out binary in warn mode).",
         note="weakest claim: shape of __main__.py only; trusted: argparse semantics.",
         technique="table agreement + decision lists over path summaries of the CLI functions",
         design="4/C19",
